@@ -42,6 +42,9 @@ type Options struct {
 	PKI     *pki.PKI
 	Relay   bool // capture every byte crossing the carrier (C04)
 	DnsPath DnsPath
+	// OnDial is called for every physical carrier connection with the connection objects whose
+	// read plans govern the client's and the server's reads respectively.
+	OnDial func(clientReads, serverReads *netsim.MemConn)
 }
 
 type certGetter struct{ m cert.TlsConfig }
@@ -128,6 +131,7 @@ func New(o Options) (*World, error) {
 	switch o.Carrier {
 	case "stream":
 		w.Listener = netsim.NewListener("server:1")
+		w.Listener.OnDial = o.OnDial
 		var l net.Listener = w.Listener
 		if o.TLS {
 			tc, err := w.SrvCfg.GetTlsConfig()
@@ -139,6 +143,7 @@ func New(o Options) (*World, error) {
 		go w.serveStream(l, o.TLS, filtered)
 	case "ws":
 		w.Listener = netsim.NewListener("server:80")
+		w.Listener.OnDial = o.OnDial
 		w.HTTP = server.NewHttpServer()
 		w.HTTP.ServerConfig = w.SrvCfg
 		w.HTTP.VerifSetSecure(o.TLS)
@@ -163,6 +168,9 @@ func New(o Options) (*World, error) {
 		c2sW, c2sR := netsim.Pipe(netsim.Addr{Net: "pipe", Str: "client-out"}, netsim.Addr{Net: "pipe", Str: "server-in"}, 0)
 		s2cW, s2cR := netsim.Pipe(netsim.Addr{Net: "pipe", Str: "server-out"}, netsim.Addr{Net: "pipe", Str: "client-in"}, 0)
 		w.stdioC2S, w.stdioS2C = c2sW, s2cW
+		if o.OnDial != nil {
+			o.OnDial(s2cR, c2sR)
+		}
 		scheme := "stdio"
 		if o.TLS {
 			scheme = "stdio+tls"
